@@ -88,7 +88,10 @@ THREAD_FORMS = [
 TF = dict((n, (p, t)) for n, p, t in THREAD_FORMS)
 SHAPE_CHILDREN = [1, 3]
 IDENT_NAMES = ['state', 'res', 'r', 'rc', 'ret', 'result', 'status', 'i', 'n', 's', 'p', 'c', 'x', 'child', 'thread',
-               'pt_state', 'pt_res', 'spawn_res', 'tmp', 'line']
+               'pt_state', 'pt_res', 'spawn_res', 'tmp', 'line',
+               # names a macro author would pick for a condition temporary (seeded/C08-r5: "bool done = (c);")
+               'done', 'cond', 'condition', 'ok', 'ready', 'flag', 'b', 'v', 'val', 'value', 't', 'test', 'expired',
+               'finished', 'pt_cond', 'pt_done', 'pt_c', 'pt_ok', '_c', '_cond', '_done', '_r', '_res', '_ret']
 LINE_ATOMS = ['Y', 'W', 'U', 'FO', ('SP', 1), ('SC', 2), ('CA', 3), ('SO', 5)]
 LINE_PLACEMENTS = [127, 128, 255, 256, 32767, 32768, 65535, 65536, 100000]
 LINE_REQUIRED = 65535          # what the documented 16-bit pt_t holds; files by this, the harness decides from the real pt_t
